@@ -29,7 +29,8 @@ RULE = ('lines: sequences of server lines over an abstract alphabet (REJECTED wi
         'S5: the handshake completes whenever the server accepts a mechanism the client can carry through, otherwise the '
         'client closes and never claims success. Non-trivial = the sequence contains a valid OK or '
         'moves past the first mechanism; distinct = distinct case JSON. In every second cookie handshake the keyring directory is '
-        'a symbolic link to a private directory; challenges come in lower- or upper-case hex.')
+        'a symbolic link to a private directory; challenges come in lower- or upper-case hex; $HOME is spelled with // or /./ in half '
+        'of the cases.')
 ASSUMPTIONS = ['an exception escaping dataReceived counts as connection loss (what the reactor does)',
                'the reference server actor is the trusted statement of a spec-conforming server']
 
@@ -412,6 +413,9 @@ def run_handshake(case):
     scratch = tempfile.mkdtemp(prefix='verif-c07-')
     saved_home = os.environ.get('HOME')
     os.environ['HOME'] = scratch
+    if case['external'] == 'data':
+        # $HOME need not be spelled canonically (a doubled slash, a /./ component): it names the same directory
+        os.environ['HOME'] = os.path.dirname(scratch) + ('//' if case['unix'] else '/./') + os.path.basename(scratch)
     out = []
     try:
         log = {'authed': 0}
